@@ -67,6 +67,16 @@ func ruleX13(c *Ctx) {
 								loops = append(loops, loop{s.X, o, s.Body, s.Pos()})
 							}
 						}
+					case *ast.ForStmt:
+						// for i := 0; i < len(A); i++
+						if _, ok := forwardIndexLoopOver(s, ""); ok {
+							as := s.Init.(*ast.AssignStmt)
+							id := as.Lhs[0].(*ast.Ident)
+							over := s.Cond.(*ast.BinaryExpr).Y.(*ast.CallExpr).Args[0]
+							if o := p.TypesInfo.ObjectOf(id); o != nil && isSliceLike(p.TypesInfo.TypeOf(over)) {
+								loops = append(loops, loop{over, o, s.Body, s.Pos()})
+							}
+						}
 					case *ast.AssignStmt:
 						// i := lo.IndexOf(A, item)
 						if len(s.Lhs) == 1 && len(s.Rhs) == 1 {
